@@ -341,12 +341,18 @@ def _server(ctx, props, bins=None):
     rm(out)
 
 
+def _mixed(ctx, props):
+    """mixed sessions: several actors using the protocol in a realistic but untidy way"""
+    _block_traces(ctx, ["mixed"], props, bins=None if ctx.thorough else (ctx.build("dev"),))
+
+
 def c08(ctx):
     size = "full" if ctx.thorough else "small"
     _scripts(ctx, "MC_BlockTransfer", {"MODE": "dl", "SIZE": size}, {"C08"}, "dl")
     # growth: a repeated block request (lost reply) while the transfer is unfinished
     _scripts(ctx, "MC_BlockTransfer", {"MODE": "dlre", "SIZE": size}, {"C08"}, "dlre", bins=(ctx.build("dev"),))
     _block_traces(ctx, ["block2", "budget"], {"C08"})
+    _mixed(ctx, {"C08"})
     if ctx.thorough:
         _server(ctx, {"C08"})
 
@@ -357,6 +363,7 @@ def c09(ctx):
     # growth: the non-final blocks after block 0 in every order
     _scripts(ctx, "MC_BlockTransfer", {"MODE": "ulperm", "SIZE": "full"}, {"C09"}, "ulperm", bins=(ctx.build("dev"),))
     _block_traces(ctx, ["block1", "budget"], {"C09"})
+    _mixed(ctx, {"C09"})
     if ctx.thorough:
         _server(ctx, {"C09"})
 
@@ -366,6 +373,7 @@ def c10(ctx):
     size = "full" if ctx.thorough else "small"
     _scripts(ctx, "MC_BlockTransfer", {"MODE": "dl", "SIZE": size}, {"C10"}, "dl")
     _block_traces(ctx, ["budget", "block2"], {"C10"})
+    _mixed(ctx, {"C10"})
 
 
 def c11(ctx):
@@ -374,6 +382,7 @@ def c11(ctx):
     ctx.model_check("MC_BlockMulti", env=env, workers=12, timeout=2400, coverage=False, expect_states=100)
     _scripts(ctx, "MC_BlockMulti", {"MODE": "hostile", "SIZE": size, "DEPTH": 2 if ctx.thorough else 1}, {"C11"}, "hostile")
     _block_traces(ctx, ["hostile"], {"C11"})
+    _mixed(ctx, {"C11"})
 
 
 def c12(ctx):
@@ -381,6 +390,7 @@ def c12(ctx):
     _scripts(ctx, "MC_BlockMulti", {"MODE": "iso", "SIZE": size, "DEPTH": 12}, {"C12"}, "iso")
     _block_traces(ctx, ["isolation"], {"C12"})
     _server(ctx, {"C12"})
+    _mixed(ctx, {"C12"})
     _block_traces(ctx, ["hostile"], {"C12"}, bins=None if ctx.thorough else (ctx.build("dev"),))
 
 
@@ -392,6 +402,7 @@ def c20(ctx):
     _scripts(ctx, "MC_BlockMulti", {"MODE": "expiry", "SIZE": size, "DEPTH": 6 if ctx.thorough else 5}, {"C20"}, "expiry",
              bins=(ctx.build("dev"),) if not ctx.thorough else None)
     _block_traces(ctx, ["expiry"], {"C20"})
+    _mixed(ctx, {"C20"})
 
 
 BLOCK_RULE = ("TLC model-checks the handler operators against client processes (MC_BlockTransfer: every AllowedSzx choice, "
